@@ -341,6 +341,11 @@ func (s *state) visitPrint(node *ast.PrintNode) {
 		switch dir.Name {
 		case "id", "noAutoescape":
 			// no implementation, they just serve as a marker to cancel autoescape.
+		case "insertWordBreaks", "changeNewlineToBr":
+			// These add markup to the text: they cancel autoescaping and work on
+			// the escaped value instead (as in the Go backend).
+			directives = append(directives, &ast.PrintDirectiveNode{0, "escapeHtml", nil})
+			fallthrough
 		default:
 			directives = append(directives, dir)
 			if impt := s.options.Formatter.Directive(directive); impt != "" {
